@@ -20,7 +20,7 @@ Definition seen_ok (e : outcome) (u : uthr) : Prop :=
 
 Record Res (s : st) : Prop := {
   md_ok : match mode s with MPre v => rpcf s = RDone false /\ payload s = OVal v | _ => True end;
-  f1_ok : match rpcf s with RXWait | RClaim => True | _ => payload s = expd s end;
+  f1_ok : match rpcf s with RXWait | RClaim | RG1 | RG2 | RG3 => True | _ => payload s = expd s end;
   f3_ok : forall j u, nth_error (users s) j = Some u -> uflag u = true -> is_ready s = true;
   f2_ok : forall j u, nth_error (users s) j = Some u -> seen_ok (expd s) u
 }.
@@ -94,7 +94,7 @@ Qed.
 Lemma res_frame2 s s' : Res s -> users s' = users s -> mode s' = mode s -> rk s' = rk s ->
   (is_ready s = true -> is_ready s' = true) ->
   match mode s with MPre _ => rpcf s' = rpcf s /\ payload s' = payload s | _ => True end ->
-  match rpcf s' with RXWait | RClaim => True | _ => payload s' = expd s end -> Res s'.
+  match rpcf s' with RXWait | RClaim | RG1 | RG2 | RG3 => True | _ => payload s' = expd s end -> Res s'.
 Proof.
   intros [M F1 F3 F2] US MD RK RY MP FP.
   assert (EX : expd s' = expd s) by (unfold expd; rewrite MD, RK; reflexivity).
@@ -150,9 +150,9 @@ Ltac rdy :=
 Lemma res_cstep s : Res s -> Res (fst (cstep s)).
 Proof.
   intros R. unfold cstep. destruct (cpcf s) eqn:C; cbn [fst].
-  - eapply res_frame; [exact R|..]; simp_st; auto.
+  - destruct (mode s) eqn:M; eapply (res_frame s); try exact R; simp_st; auto.
   - destruct (mode s) eqn:M; try (eapply res_frame; [exact R|..]; simp_st; auto; fail).
-    frames. destruct (slot d) eqn:SL; eapply res_frame; try exact R; simp_st; rew_hyps; auto; rdy.
+    all: frames; destruct (slot d) eqn:SL; eapply res_frame; try exact R; simp_st; rew_hyps; auto; rdy.
   - frames. eapply res_frame; try exact R; simp_st; rew_hyps; simp_st; rew_hyps; auto. rdy.
   - frames. destruct (slot d) as [l|] eqn:SL.
     + destruct (onode_eqb (head l) exp); unfold after_charge; eapply res_frame; try exact R; simp_st; rew_hyps; auto;
@@ -170,6 +170,8 @@ Proof.
     + eapply res_frame; [exact R|..]; simp_st; auto.
   - frames. eapply res_frame; try exact R; simp_st; rew_hyps; auto. rdy.
   - exact R.
+  - eapply res_frame; [exact R|..]; simp_st; auto.
+  - eapply res_frame; [exact R|..]; simp_st; auto.
 Qed.
 
 Ltac seen_tac Hj R IA :=
@@ -235,13 +237,19 @@ Proof.
     frames. eapply (res_set_user s _ j u _ R Hj); simp_st; rew_hyps; auto; try rdy.
     + cbn [set_upc uflag]. intros Q. pose proof (f3_ok s R j u Hj Q). rdy.
     + seen_tac Hj R IA.
+  - (* UAsg *)
+    eapply (res_set_user s _ j u _ R Hj); simp_st; auto.
+    + cbn [set_upc uflag]. intros Q. exact (f3_ok s R j u Hj Q).
+    + seen_tac Hj R IA.
 Qed.
 
 Lemma res_rstep_in s : Inv s -> Res s -> enabled s 1 = true -> Res (fst (rstep_in s)).
 Proof.
   intros I R E. pose proof (proj1 I) as IA. cbn [enabled] in E. pose proof (md_ok s R) as M. pose proof (f1_ok s R) as F1.
   unfold rstep_in. destruct (rpcf s) eqn:RP; try discriminate; cbn [fst].
-  - eapply (res_frame2 s); simp_st; auto. destruct (mode s); auto. destruct M; discriminate.
+  - eapply (res_frame2 s); simp_st; auto.
+    + destruct (mode s); auto. destruct M; discriminate.
+    + destruct (mode s); auto.
   - frames. eapply (res_frame2 s); simp_st; rew_hyps; auto; try rdy.
     + destruct (mode s); auto. destruct M; discriminate.
     + unfold expd. destruct (mode s); auto. destruct M; discriminate.
@@ -270,6 +278,11 @@ Proof.
         unfold inlist in IL. destruct (upcf u); discriminate.
   - frames. eapply (res_frame2 s); simp_st; rew_hyps; simp_st; rew_hyps; auto; try rdy.
     destruct (mode s); auto. destruct M; discriminate.
+  - eapply (res_frame2 s); simp_st; auto. destruct (mode s); auto. destruct M; discriminate.
+  - eapply (res_frame2 s); simp_st; auto. destruct (mode s); auto. destruct M; discriminate.
+  - frames. eapply (res_frame2 s); simp_st; rew_hyps; auto; try rdy.
+    + destruct (mode s); auto. destruct M; discriminate.
+    + unfold expd. destruct (mode s); auto. destruct M; discriminate.
 Qed.
 
 Lemma res_rstep s : Inv s -> Res s -> enabled s 1 = true -> Res (fst (rstep s)).
